@@ -1,14 +1,22 @@
-"""C06 - catchment delineation is upstream reachability on the flow grid (relations, river traces, flow paths proved; area set equality bounded)."""
+"""C06 - catchment delineation is upstream reachability on the flow grid (relations, area == reachable set, river traces proved; listing-once and hole filling bounded)."""
 from vf.check import Run
 from props import common as cm
 
 
 def run(tier):
     r = Run('C06', tier, level='other')
-    cm.run_kernels(r, cm.kernels('c_neighbours', 'c_upstream', 'c_downstream', 'c_delineate_area', 'c_delineate_river',
+    cm.run_kernels(r, cm.kernels('c_neighbours', 'c_upstream', 'c_downstream', 'c_delineate_area', 'c_delineate_area#reach', 'c_delineate_river',
                                  'c_delineate_flowpathlengths_in_catchment'))
     cm.run_monitors(r, ['mon_area', 'mon_updown', 'mon_paths'])
-    r.explanation = ('proved (Engine C): upstream/downstream contracts and the lemma that they are inverse relations (updown_inverse, nbr_mirror), '
-                     'river trace follows the downstream chain with row/column offsets and cumulated Euclidean distance, memory safety and termination '
-                     'of the area delineation; bounded: area == reachable set (python monitor with a fix-point oracle)')
+    cm.lean_lemma(r, tier, 'Reach.lean', 'listed_iff_reach', 'c_delineate_area#reach',
+                  'SOUND and CLOSED (the two post-conditions of c_delineate_area#reach) together say: a cell other than the outlet is listed exactly when its '
+                  'downstream chain reaches the outlet through cells that are not inlets',
+                  'the step from the two proved post-conditions of c_delineate_area#reach (SOUND, CLOSED) to "listed <=> reaches the outlet" is an induction '
+                  'external to the SMT proof; its Lean proof (lean/Reach.lean, theorem listed_iff_reach) is re-checked by the thorough tier')
+    r.explanation = ('proved (Engine C): upstream/downstream contracts and the lemma that they are inverse relations (updown_inverse, nbr_mirror); '
+                     'c_delineate_area#reach: on success every listed cell is the outlet or a non-inlet cell whose downstream cell is the outlet or listed earlier, '
+                     'every non-inlet cell draining into the outlet or a listed cell is listed, the outlet is listed when anything is, the rest of the vector keeps -1 '
+                     '(=> listed <=> reaches the outlet, lean/Reach.lean); river trace follows the downstream chain with row/column offsets and cumulated '
+                     'Euclidean distance, memory safety and termination of the area delineation; bounded: each cell listed once, hole filling, python wrappers '
+                     '(monitor with a fix-point oracle)')
     return r.finish()
